@@ -952,12 +952,12 @@ func verifLenIsHeaderPlusLength(p *PathAttribute) bool {
 //@   requires l != nil
 //@   claims inv-init inv-keep step
 //@   loop 0 invariant pre(length) == 2
-//@   loop 0 step int(length) == header(int(length)) + 11
+//@   loop 0 step int(length) == (header(int(length)) + 11) % 65536
 //@ func NewLsTLVSrLocalBlock
 //@   requires l != nil
 //@   claims inv-init inv-keep step
 //@   loop 0 invariant pre(length) == 2
-//@   loop 0 step int(length) == header(int(length)) + 11
+//@   loop 0 step int(length) == (header(int(length)) + 11) % 65536
 //@ func NewLsTLVOpaquePrefixAttr
 //@   requires l != nil && len(*l) <= 65535
 //@   claims post
